@@ -126,9 +126,66 @@ def lookups(ctx, S):
         ctx.count("lookup_%s_cases" % kind, len(ok))
 
 
+# (unit type, key, mode, how a word w appears in the command): the list-valued keys whose words go into the command one by one
+COMMAND_KEYS = [
+    ("container", "Secret", "args", ["--secret", "%s"]), ("build", "Secret", "args", ["--secret", "%s"]), ("container", "PodmanArgs", "args", ["%s"]),
+    ("pod", "PodmanArgs", "args", ["%s"]), ("kube", "PodmanArgs", "args", ["%s"]), ("volume", "PodmanArgs", "args", ["%s"]), ("network", "PodmanArgs", "args", ["%s"]),
+    ("image", "PodmanArgs", "args", ["%s"]), ("build", "PodmanArgs", "args", ["%s"]),
+    ("container", "GlobalArgs", "args", ["%s"]), ("pod", "GlobalArgs", "args", ["%s"]), ("kube", "GlobalArgs", "args", ["%s"]), ("volume", "GlobalArgs", "args", ["%s"]),
+    ("network", "GlobalArgs", "args", ["%s"]), ("image", "GlobalArgs", "args", ["%s"]), ("build", "GlobalArgs", "args", ["%s"]),
+    ("container", "Mask", "args", ["--security-opt", "mask=%s"]), ("container", "Unmask", "args", ["--security-opt", "unmask=%s"]),
+    ("container", "Sysctl", "strv", ["--sysctl", "%s"]), ("container", "LogOpt", "strv", ["--log-opt", "%s"]), ("kube", "LogOpt", "strv", ["--log-opt", "%s"]),
+    ("container", "UIDMap", "strv", ["--uidmap", "%s"]), ("container", "GIDMap", "strv", ["--gidmap", "%s"]), ("pod", "UIDMap", "strv", ["--uidmap", "%s"]),
+    ("container", "AddDevice", "strv", ["--device", "%s"]),
+]
+
+
+def command_level(ctx):
+    """every list-valued key of every unit type, through the converter: the words of the value (as systemd splits it) appear in the command"""
+    import docs
+    rng = ctx.rng
+    vals = ['a b', 'id=x\\x20y', '"q r" s', "it\\'s", 'k=\\"v\\"', "a\\tb c", "'s q' t", "x\\\\y", 'a "" b', "\\101B", "p=1 q='2 3'"]
+    work = []
+    for typ, key, mode, shape in COMMAND_KEYS:
+        for v in vals + ["".join(rng.choice(RICH[:27]) for _ in range(rng.randint(1, 8))) for _ in range(ctx.volume(6, 60))]:
+            v = v.strip()
+            if not v or "\n" in v or "\r" in v or v[0] in "#;[-" or v.endswith("\\"):
+                continue
+            work.append((typ, key, mode, shape, v))
+    acc = vlib.run_impl([case_line("unquote", w[4]) for w in work])
+    work = [w for w, a in zip(work, acc) if a.startswith("OK")]
+    cases = [case_line("convert", "0", "/u/x.%s" % typ, "[%s]\n%s%s=%s\n" % (docs.TYPES[typ][0], docs.MINIMAL[typ], key, v)) for typ, key, mode, shape, v in work]
+    outs = vlib.run_impl(cases)
+    spec = vlib.run_model([case_line("sd_split", mode, v) for typ, key, mode, shape, v in work]) if ctx.model_ok else []
+    lines, idx = [], []
+    recs = [vlib.parse_convert(o) for o in outs]
+    for i, rs in enumerate(recs):
+        r = rs[0] if rs else {}
+        ex = vlib.entries(r, "Service", "ExecStartPre" if work[i][0] == "pod" else "ExecStart") if r.get("ok") else []
+        if ex:
+            lines.append(ex[-1].encode()); idx.append(i)
+    argvs = vlib.sd_split_many(lines) if lines else []
+    for i, argv in zip(idx, argvs):
+        typ, key, mode, shape, v = work[i]
+        sw = words(spec[i]) if i < len(spec) else None
+        ctx.evaluations += 1
+        ctx.count("command:%s:%s" % (typ, key))
+        if sw is None or argv is None:
+            continue
+        ctx.nontrivial.add((typ, key, v))
+        want = [x for w in sw for x in [t.replace("%s", w) if "%s" in t else t for t in shape]]
+        if key == "AddDevice":
+            want = [x for w in sw if not w.startswith("-") for x in ["--device", w]]
+        ok = any(argv[j:j + len(want)] == want for j in range(len(argv) - len(want) + 1)) if want else True
+        if not ok:
+            ctx.failures.append({"op": "convert", "raw": show(v), "raw_hex": hx(v), "what": "%s=%s in a .%s unit: systemd splits the value into %s, the command %s does not carry %s" % (key, show(v), typ, sw, argv, want),
+                                 "class": None, "case_hex": cases[i]})
+
+
 def run(ctx):
     ctx.rule = ("raw values over {a,SP,\",',\\,n,x,4,1} exhaustively to length 4 (quick) / 6 (thorough) plus random strings of <=12 symbols over a "
                 "34-symbol escape-rich alphabet (incl. VT, FF, NBSP, U+3000, U+2028, U+0085, US: white space that is not a systemd separator) and a hand-written corpus; each through SplitWord and SplitStrv, the extracted spec and the real libsystemd; "
+                "plus 25 (unit type, list-valued key) pairs through the converters: the words systemd would see appear in the command; "
                 "non-trivial = contains a quote or backslash; distinct = distinct (mode, value)")
     use = sdref.available()
     ctx.notes.append("libsystemd second oracle / spec validation: %s" % ("used" if use else "unavailable"))
@@ -136,6 +193,7 @@ def run(ctx):
     for i in range(0, len(S), 150000):
         check(ctx, S[i:i + 150000], use)
     lookups(ctx, S)
+    command_level(ctx)
     ctx.exhaustive = True
     ctx.samples = [{"raw": show(s)} for s in S[2:9]] + [{"raw": show(s)} for s in S[-3:]]
     unknown = [f for f in ctx.failures]
